@@ -478,12 +478,27 @@ Section Internal.
       | _, _ => Ok []
       end.
 
-  Lemma to_internal_struct_row fs names vals :
-    to_internal local (TStruct fs) (PRow names vals) =
-      if existsb (fun f => need_conversion (sf_ty f)) fs
-      then bind (to_internal_all fs vals) (fun vals' => Ok (PRow names vals'))
-      else Ok (PRow names vals).
+  Lemma to_internal_struct_row_gen fs names0 vals0 :
+    to_internal local (TStruct fs) (PRow names0 vals0) =
+      bind (match_fields_by_name (map sf_name fs) names0 vals0) (fun nv =>
+        if existsb (fun f => need_conversion (sf_ty f)) fs
+        then bind (to_internal_all fs (snd nv)) (fun vals' => Ok (PRow (fst nv) vals'))
+        else Ok (PRow (fst nv) (snd nv))).
   Proof. reflexivity. Qed.
+
+  Lemma strs_eqb_refl l : strs_eqb l l = true.
+  Proof. induction l as [|x l IH]; simpl; [reflexivity|]. now rewrite str_eqb_refl, IH. Qed.
+
+  (* a Row already listed in schema order is left alone *)
+  Lemma match_fields_same snames vals : match_fields_by_name snames snames vals = Ok (snames, vals).
+  Proof. unfold match_fields_by_name. now rewrite strs_eqb_refl. Qed.
+
+  Lemma to_internal_struct_row fs vals :
+    to_internal local (TStruct fs) (PRow (map sf_name fs) vals) =
+      if existsb (fun f => need_conversion (sf_ty f)) fs
+      then bind (to_internal_all fs vals) (fun vals' => Ok (PRow (map sf_name fs) vals'))
+      else Ok (PRow (map sf_name fs) vals).
+  Proof. rewrite to_internal_struct_row_gen, match_fields_same. reflexivity. Qed.
 
   (* values of a type that needs no conversion hold no datetime *)
   Lemma tz_local_id : forall t v, ivalue t v -> need_conversion t = false -> tz_local local v = v.
